@@ -36,7 +36,7 @@ ASSUMPTIONS = [
     "no other live node has taken over a serialized id at deserialization time (alive-subsets arise from dropping handles / detaching whole trees)",
     "Any-typed properties, NaN/inf, lone surrogates and ints beyond 64 bits are outside the generator",
 ]
-MUST_SEE = ["equal_but_distinct_source_objects", "subclass_clear_registry_calls", "union_field_non_first_member", "other_dialect_call_before_roundtrip", "recreated_with_suffix_id", "shared_subtrees", "fresh_process_cases", "subforest_alive", "none_alive", "all_alive", "multi_origin", "hostile_strings", "index_sources", "yaml", "msgpck", "json", "failed_call_before_roundtrip"]
+MUST_SEE = ["payload_read_again", "equal_but_distinct_source_objects", "subclass_clear_registry_calls", "union_field_non_first_member", "other_dialect_call_before_roundtrip", "recreated_with_suffix_id", "shared_subtrees", "fresh_process_cases", "subforest_alive", "none_alive", "all_alive", "multi_origin", "hostile_strings", "index_sources", "yaml", "msgpck", "json", "failed_call_before_roundtrip"]
 CONFIG = {
     "quick": {"shards": 16, "trees": 60, "fresh": 6, "watchdog_s": 600},
     "thorough": {"shards": 32, "trees": 400, "fresh": 60, "watchdog_s": 3400},
@@ -332,6 +332,37 @@ def run_shard(ctx):
                 t.detach()
             del res, keep, alive_objs, twins
             collect()
+    # ---- one payload object read several times (each time after the previous result is gone)
+    if ctx.only_case is None:
+        for k in range(12):
+            rng = ctx.rng(("reread", k))
+            tg = G.TreeGen(rng, U, max_nodes=8, max_depth=4, max_width=3, share=0.0, twin=0.1, p_origin=0.5, hostile=0.0, exclude=(f"{P}Ser", f"{P}Blob"))
+            s = tg.tree()
+
+            def make_payload():
+                r0 = build(U, s)
+                d_ = r0.as_dict()
+                dump0 = dump_node(U, r0)
+                r0.detach()
+                return d_, dump0, type(r0)
+
+            payload, dump0, C = make_payload()
+            collect()
+            ctx.count("payload_read_again")
+            for attempt in range(3):
+                ctx.evaluations += 1
+                try:
+                    r = C.as_obj(payload)
+                except Exception as e:  # noqa: BLE001
+                    ctx.violation("deserialize-raised", f"reading one dict payload for the {attempt + 1}. time raised {type(e).__name__}: {e}"[:300], {"tree": spec_json(s), "format": "dict", "attempt": attempt + 1})
+                    break
+                if dump_node(U, r) != dump0:
+                    ctx.violation("dump-differs", f"the {attempt + 1}. reading of one dict payload differs from the original", {"tree": spec_json(s), "format": "dict", "attempt": attempt + 1})
+                    r.detach()
+                    break
+                r.detach()
+                del r
+                collect()
     # ---- fresh interpreter leg
     if fresh_jobs and ctx.only_case is None:
         jf = os.path.join(os.getcwd(), f"c04_fresh_{ctx.shard}.json")
